@@ -150,8 +150,7 @@ Proof.
   destruct n as [k r a ks]. unfold edges.
   repeat match goal with |- context [if is_k k ?s then _ else _] => destruct (is_k k s); [try reflexivity|] end;
     try reflexivity.
-  - destruct (has_kid "schema" ks && negb (vo_noex o) && negb (ahas a "#has_example")); reflexivity.
-  - destruct (has_kid "schema" ks && negb (vo_noex o)); reflexivity.
+  all: match goal with |- context [if ?c then [_] else []] => destruct c end; reflexivity.
 Qed.
 
 (* ---- the main lemma: under the guards, the traversal decides conformance ---- *)
